@@ -2,6 +2,7 @@ package scen
 
 import (
 	"context"
+	"strings"
 	"fmt"
 	"time"
 
@@ -38,6 +39,7 @@ type c8Handler struct {
 	sub      *ScriptedSubscriber
 	pub      *ScriptedPublisher
 	noPub    bool
+	hh       *message.Handler
 	named    bool // the router is handed Stringer wrappers around this handler's Pub/Sub: their String() is the type name to report
 	addOut   bool // middleware that adds an output (only interesting on no-publisher handlers)
 	outN     map[string]int  // uuid -> number of outputs
@@ -81,13 +83,22 @@ func c08Body(r *Run) {
 	}
 	rig := newRouterRig(r, 30*time.Second)
 	var hs []*c8Handler
+	unnamed := -1
+	if nH > 1 && t.Chance(1, 5) {
+		unnamed = 1 + t.Int(nH-1)
+	}
+	ranFn := map[*message.Message]*c8Handler{} // which handler's function a message was passed to
 	// produced message (by UUID: every output UUID occurs once in a run; a router may hand its publisher the returned
 	// objects or equal copies) -> handler that returned it
 	owner := map[string]*c8Handler{}
 	ownerPtr := map[*message.Message]*c8Handler{} // the returned objects themselves (UUIDs of passed-on consumed messages may repeat)
 	var parked []c8Parked
 	for i := 0; i < nH; i++ {
-		h := &c8Handler{name: fmt.Sprintf("handler-%d", i), outN: map[string]int{}, passSelf: map[string]bool{}, detach: map[string]bool{}, earlyAck: map[string]bool{}, emptyUUID: map[string]bool{}, parkConsumed: map[string]bool{}, reuseParked: map[string]bool{},
+		hname := fmt.Sprintf("handler-%d", i)
+		if i == unnamed {
+			hname = "" // AddHandler accepts the empty name
+		}
+		h := &c8Handler{name: hname, outN: map[string]int{}, passSelf: map[string]bool{}, detach: map[string]bool{}, earlyAck: map[string]bool{}, emptyUUID: map[string]bool{}, parkConsumed: map[string]bool{}, reuseParked: map[string]bool{},
 			invoked: map[*Delivery]int{}, returned: map[*Delivery][]*message.Message{}, snaps: map[*Delivery][]*message.Message{}}
 		h.sub = subs[t.Int(nSubs)]
 		h.pub = pubs[t.Int(nPubs)]
@@ -134,8 +145,7 @@ func c08Body(r *Run) {
 			r.Fail("C08.R4", "router context accessors report another handler's wiring", "%s of %s, message %s: got %v want %v", where, h.name, m.UUID, got, want)
 		}
 	}
-	for _, h := range hs {
-		h := h
+	register := func(h *c8Handler) {
 		fn := func(msg *message.Message) ([]*message.Message, error) {
 			d := h.sub.ByMsg[msg]
 			if d == nil {
@@ -147,6 +157,7 @@ func c08Body(r *Run) {
 				r.Fail("C08.R1", "a handler received a message of another subscribe topic", "%s (topic %s) got %s emitted on %s", h.name, h.subTopic, msg.UUID, d.Topic)
 			}
 			h.invoked[d]++
+			ranFn[msg] = h
 			checkCtx("consumed message inside handler", h, msg)
 			if h.earlyAck[msg.UUID] {
 				// settled by the handler itself before it is done (like InstantAck): the broker ends the delivery's context,
@@ -216,6 +227,9 @@ func c08Body(r *Run) {
 				hh.AddMiddleware(func(next message.HandlerFunc) message.HandlerFunc {
 					return func(m *message.Message) ([]*message.Message, error) {
 						o, err := next(m)
+						if other := ranFn[m]; other != nil && other.name != h.name {
+							r.Fail("C08.R1", "a middleware added to one handler ran in the chain of another handler", "middleware of %q ran for %s, which went to %q", h.name, m.UUID, other.name)
+						}
 						x := message.NewMessage(m.UUID+">mw", []byte("mw"))
 						x.Metadata.Set("from", h.name)
 						owner[x.UUID+"|"+h.name] = h
@@ -230,6 +244,10 @@ func c08Body(r *Run) {
 				hh.AddMiddleware(func(next message.HandlerFunc) message.HandlerFunc {
 					return func(m *message.Message) ([]*message.Message, error) {
 						o, err := next(m)
+						if other := ranFn[m]; other != nil && other.name != h.name {
+							r.Fail("C08.R1", "a middleware added to one handler ran in the chain of another handler", "middleware of %q ran for %s, which went to %q", h.name, m.UUID, other.name)
+							return o, err
+						}
 						if d := h.sub.ByMsg[m]; d != nil && err == nil {
 							x := message.NewMessage(m.UUID+">"+h.name+">mw", []byte("mw"))
 							x.Metadata.Set("from", h.name)
@@ -244,10 +262,12 @@ func c08Body(r *Run) {
 				})
 			}
 		}
-		_ = hh
+		h.hh = hh
 	}
-	for _, p := range pubs {
-		p := p
+	for _, h := range hs {
+		register(h)
+	}
+	hook := func(p *ScriptedPublisher) {
 		p.Hook = func(c *PubCall) {
 			for _, m := range c.Msgs {
 				h := ownerPtr[m]
@@ -268,8 +288,15 @@ func c08Body(r *Run) {
 			}
 		}
 	}
+	for _, p := range pubs {
+		hook(p)
+	}
+	var reborn *c8Handler // registered under the name of a handler that was stopped before
 
 	r.Sim.AtEnd(func() {
+		if reborn != nil && reborn.sub.Subscribes[reborn.subTopic] == 0 {
+			r.Fail("C08.R1", "a handler registered under the name of a stopped one was never started", "%q on %s", reborn.name, reborn.subTopic)
+		}
 		// subscription -> handler must be a consistent, injective mapping
 		type subKey struct {
 			s *ScriptedSubscriber
@@ -361,6 +388,58 @@ func c08Body(r *Run) {
 	})
 	rig.Start()
 	r.Sim.Quiesce()
+	// a third of the runs with several handlers: one handler is stopped and, as soon as its name is free again, a new
+	// handler with another subscriber, publisher and topics is registered under that name and started once the old one
+	// has reported Stopped(): it is wired to ITS Pub/Sub and topics
+	var old *c8Handler
+	for _, h := range hs {
+		// (a handler without middleware of its own: whether a predecessor's middlewares still apply to a new handler of the
+		// same name is not specified)
+		if !h.addOut && old == nil {
+			old = h
+		}
+	}
+	if nH > 1 && old != nil && t.Chance(1, 3) {
+		r.Fault("handler-stopped-and-registered-again-under-its-name")
+		old.pub.CloseDelay = 20 * time.Millisecond // its shutdown takes a moment
+		old.hh.Stop()
+		h2 := &c8Handler{name: old.name, outN: map[string]int{}, passSelf: map[string]bool{}, detach: map[string]bool{}, earlyAck: map[string]bool{}, emptyUUID: map[string]bool{}, parkConsumed: map[string]bool{}, reuseParked: map[string]bool{},
+			invoked: map[*Delivery]int{}, returned: map[*Delivery][]*message.Message{}, snaps: map[*Delivery][]*message.Message{}}
+		h2.sub = NewScriptedSubscriber(r, "sub-again")
+		h2.sub.MaxRedeliver = 0
+		h2.pub = NewScriptedPublisher(r, "pub-again")
+		h2.subTopic, h2.pubTopic = "in-again", "out-again"
+		for i := 0; i < 2; i++ {
+			u := fmt.Sprintf("again-m%d", i)
+			h2.sub.Script[h2.subTopic] = append(h2.sub.Script[h2.subTopic], ScriptMsg{UUID: u, Payload: "p"})
+			h2.outN[u] = 1
+		}
+		subs = append(subs, h2.sub)
+		pubs = append(pubs, h2.pub)
+		hook(h2.pub)
+		registered := false
+		for tries := 0; tries < 2000 && !registered; tries++ {
+			pv, pan := Call(func() { register(h2) })
+			switch {
+			case !pan:
+				registered = true
+			case strings.Contains(fmt.Sprint(pv), "already exists") || strings.Contains(fmt.Sprintf("%T", pv), "DuplicateHandlerNameError"):
+				simrt.Yield() // the old handler still holds the name
+			default:
+				r.Fail("C08.R1", "AddHandler panicked", "%v", pv)
+				tries = 2000
+			}
+		}
+		<-old.hh.Stopped()
+		if registered {
+			hs = append(hs, h2)
+			reborn = h2
+			if err := rig.Router.RunHandlers(rig.ctx); err != nil {
+				r.Probe("runhandlers-error")
+			}
+			r.Sim.Quiesce()
+		}
+	}
 	rig.Router.Close()
 }
 
